@@ -14,8 +14,10 @@
    inverse suffix array + psi, record lookup through rank/select), for the executable models of
    Model.v / ModelWT.v.
    What is by interface (compared by the correspondence check, not proved): SA-IS (any sorted
-   permutation of the suffixes is THE suffix array, C19_suffix_array_unique), the RRR / sparse /
-   wavelet-tree / Huffman encodings, the byte-level serialisation.  Texts must pass
+   permutation of the suffixes is THE suffix array, C19_suffix_array_unique), the RRR / sparse
+   bit-vector encodings, the Huffman code book, the byte-level serialisation.  The prefix wavelet
+   tree is proved separately over bit vectors by interface (the C19_prefix_wavelet_tree theorems); the
+   WaveletTreePsi theorems use a wavelet tree through its list interface.  Texts must pass
    check_record_boundaries (non-empty text, first record at 0, strictly increasing starts, last
    record non-empty): both ReferenceDocument::construct and CompressedDocument::construct
    refuse everything else (C19_invalid_divisions_refused_alike). *)
@@ -23,7 +25,7 @@ From Coq Require Import Arith NArith List Bool Sorted.
 From Blue Require Import Scrunch.ModelBits Scrunch.Model Scrunch.ModelWT Scrunch.ProofsBits
   Scrunch.ProofsSorted Scrunch.ProofsSuffix Scrunch.ProofsIAP Scrunch.ProofsSearch Scrunch.ProofsSigma
   Scrunch.ProofsDoc Scrunch.ProofsSampled Scrunch.ProofsCompressed Scrunch.ProofsWT1 Scrunch.ProofsWT2
-  Scrunch.ProofsWT3 Scrunch.ProofsWT4.
+  Scrunch.ProofsWT3 Scrunch.ProofsWT4 Scrunch.ModelPrefixWT Scrunch.ProofsPrefixWT.
 Import ListNotations.
 Local Open Scope nat_scope.
 
@@ -82,6 +84,35 @@ Proof. exact invalid_refused. Qed.
 
 Theorem C19_empty_text_has_no_valid_division : forall rb, check_record_boundaries [] rb = false.
 Proof. exact empty_text_refused. Qed.
+
+(* The wavelet tree over prefix-free code words (wavelet_tree/prefix.rs: one bit vector per node,
+   recursive access / rank / select) answers as the plain symbol list, for every encoder that
+   knows the symbols of the text and decodes its own code words, whenever the constructor
+   succeeds; it succeeds for every prefix-free code book. *)
+Theorem C19_prefix_wavelet_tree_answers_as_the_symbol_list :
+  forall enc dec cf text, (forall s, In s text -> enc s = Some (cf s) /\ dec (cf s) = Some s) ->
+  forall fuel t, pt_build enc fuel text = Ok t ->
+    (forall x, x < length text -> pt_access dec t x = wt_access text x) /\
+    (forall q, In q text -> forall x, x <= length text -> pt_rank_q enc t q x = wt_rank_q text q x) /\
+    (forall q, In q text -> forall k, pt_select_q enc t q k = wt_select_q text q k).
+Proof. exact prefix_wt_correct. Qed.
+
+Theorem C19_prefix_wavelet_tree_constructs_for_prefix_free_codes :
+  forall enc dec cf text, (forall s, In s text -> enc s = Some (cf s) /\ dec (cf s) = Some s) ->
+  forall fuel, (forall s, In s text -> cf s <> []) ->
+  prefix_free (map cf text) -> max_len (map cf text) < fuel ->
+  exists t, pt_build enc fuel text = Ok t.
+Proof. exact prefix_wt_constructs. Qed.
+
+(* With the fixed-width encoder (encoder.rs FixedWidthEncoder) the chain is closed: the tree is
+   built and answers as the list, for every symbol string. *)
+Theorem C19_fixed_width_wavelet_tree : forall text, exists t,
+  fw_tree text = Ok (t, fw_chars text) /\
+  (forall x, x < length text -> pt_access (fw_dec (fw_chars text)) t x = wt_access text x) /\
+  (forall q, In q text -> forall x, x <= length text ->
+     pt_rank_q (fw_enc (fw_chars text)) t q x = wt_rank_q text q x) /\
+  (forall q, In q text -> forall k, pt_select_q (fw_enc (fw_chars text)) t q k = wt_select_q text q k).
+Proof. exact fixed_width_tree_correct. Qed.
 
 (* The specification is the plain scan: `occurrences` lists, in ascending order, exactly the
    positions at which the needle is read off the text; `spec_record_of` is the record whose
